@@ -19,7 +19,7 @@ def run(res):
     if res.broken:
         n = max(n, 1500)      # failing-input search on the implementation
     pc.pool_check(res, 'C09', n, focus=FOCUS)
-    pc.real_scenarios(res, 'C09', [dict(kind='recycle', n=2, maxtasks=2, jobs=12)] if res.tier == 'quick' else [dict(kind='recycle', n=n, maxtasks=m, jobs=30) for n in (1, 2, 4) for m in (1, 2, 3)])
+    pc.real_scenarios(res, 'C09', [dict(kind='recycle', n=2, maxtasks=2, jobs=12)] if res.tier == 'quick' else [dict(kind='recycle', n=n, maxtasks=m, jobs=6 * n * m, watchdog=90) for n in (1, 2, 4) for m in (1, 2, 3)])
     res.assumptions += pc_assumptions()
 
 
